@@ -89,7 +89,34 @@ def run_p(report: Report, prop: str, tier: str, targets: Optional[List[str]] = N
     phase1 = [t for t in targets if t not in layer2] + support
     res1 = run_jobs(phase1)
     proven = [t for t, r in res1.items() if r["status"] == "ok" and r["verdicts"] and all(v["status"] == "discharged" for v in r["verdicts"])]
+
+    def undecided(r):
+        return r["status"] == "ok" and any(v["status"] != "discharged" and v["kind"] != "vacuity" for v in r["verdicts"])
+
+    # second chance, one function at a time and with a three-fold budget: an obligation that timed
+    # out while all cores were busy must not be reported (DESIGN.md 12.1: verdict stability)
+    def second_chance(res, env_extra=None):
+        nonlocal budget
+        again = [t for t, r in res.items() if undecided(r)]
+        if not again:
+            return False
+        b0 = budget
+        budget = b0 * 3
+        try:
+            for t in again:
+                r2 = run_jobs([t], env_extra)[t]
+                if r2["status"] == "ok" and not undecided(r2):
+                    r2["second_chance"] = True
+                    res[t] = r2
+        finally:
+            budget = b0
+        return True
+
+    second_chance(res1)
+    proven = [t for t, r in res1.items() if r["status"] == "ok" and r["verdicts"] and all(v["status"] == "discharged" for v in r["verdicts"])]
     res2 = run_jobs(layer2, {"PYVC_PROVEN": json.dumps(proven)}) if layer2 else {}
+    if layer2:
+        second_chance(res2, {"PYVC_PROVEN": json.dumps(proven)})
     for t in targets:
         results[t] = res1[t] if t in res1 else res2[t]
     if layer2:
